@@ -1,7 +1,6 @@
 import TLVerif.Util.Hex
 import TLVerif.Packet.Script
-import TLVerif.Packet.Crc
-import TLVerif.Packet.Aes
+import TLVerif.Packet.RealEnv
 /-!
 Line-protocol handler of the `packet` family.  One line = one whole connection history:
 
@@ -16,17 +15,13 @@ Line-protocol handler of the `packet` family.  One line = one whole connection h
 * `<corrupt>` — `-`, `x<offset>:<xor>` (one wire byte changed) or `t<len>` (wire truncated);
 * `<rbuf> <wbuf>` — buffer sizes of the implementation (the model is independent of them).
 
+`packet.read <n0>:<proto>:<crcC> <mode ops> <stream> <chunks> <rbuf> <claim>` (reader only; `<claim>` is for the oracle),
+`packet.wlen <proto> <len>`, `packet.hs <seed> <enc> <proto> <client packets> <server packets> <chunk> <corrupt>`.
+
 Result: `wire=<hex> w=<failed writes> r=<packets read…,e:<final error>> pong=<bytes the reader wrote back>`.
 -/
 namespace TLVerif.Packet
 open TLVerif.Util TLVerif.Facts.Packet
-
-/-- the executable environment: bitwise CRC-32 with both polynomials, AES-256 -/
-def realEnv : Env where
-  crcI := crc32 polyIEEE
-  crcC := crc32 polyCastagnoli
-  enc k b := Aes.encBlock (Aes.expand k) b
-  dec k b := Aes.decBlock (Aes.expand k) b
 
 def hexNat? (s : String) : Option Nat :=
   s.toList.foldl (fun acc c => match acc, hexVal c with
@@ -211,7 +206,7 @@ def hsOp (enc proto cpk spk cor : String) : String :=
 def handle (op : String) (args : List String) : String :=
   match op, args with
   | "conn", [st, script, chunks, cor, _rb, _wb] => conn st script chunks cor
-  | "read", [st, modes, stream, chunks, _rb] => readOnly st modes stream chunks
+  | "read", [st, modes, stream, chunks, _rb, _claim] => readOnly st modes stream chunks
   | "wlen", [p, l] => wlen p l
   | "hs", [_seed, enc, proto, cpk, spk, _chunk, cor] => hsOp enc proto cpk spk cor
   | _, _ => "bad-op"
